@@ -126,7 +126,11 @@ extern "C" void harness(void) {
             Node_SP n = Node::allocate(w, h); tg->addNode(n); ns.push_back(n);
         }
         for (int i = 1; i < NN; i++) { int p = verif_choice(i); tg->addEdge(Edge::allocate(ns[p], ns[i])); }
+#ifdef DIR
+        int dir = DIR;
+#else
         int dir = verif_choice(4);
+#endif
         Tree_SP t = std::make_shared<Tree>(tg, ns[0]);
         t->symmetricLayout((CardinalDir)dir, 10, 40);
         for (int i = 0; i < NN; i++) { Avoid::Point c = ns[i]->getCentre(); verif_out_double(c.x); verif_out_double(c.y); }
